@@ -544,6 +544,7 @@ func runC05Case(c *fw.Ctx, id string, cfg c05Config, seed int64, opsPer int) {
 	var mu sync.Mutex
 	specs := map[string]c05Spec{}
 	errsByOp := map[string]error{}
+	cancelledInBatch := 0
 	var wg sync.WaitGroup
 	for sdr := 0; sdr < cfg.Senders; sdr++ {
 		wg.Add(1)
@@ -600,9 +601,25 @@ func runC05Case(c *fw.Ctx, id string, cfg c05Config, seed int64, opsPer int) {
 					}
 				default:
 					var calls []hrpc.Call
-					for n, nb := 0, 1+g.r.Intn(10); n < nb; n++ {
+					// sometimes one mutation of the batch has its own context, which ends
+					// while the batch waits for the flush interval: it may be dropped
+					// from the multi-request, everything else must still be exact
+					cancelAt := -1
+					nb := 1 + g.r.Intn(10)
+					if cfg.Flush >= 5*time.Millisecond && cfg.Queue > nb && g.r.Intn(2) == 0 {
+						cancelAt = g.r.Intn(nb)
+					}
+					var cancelOne context.CancelFunc
+					for n := 0; n < nb; n++ {
 						var call hrpc.Call
 						var s c05Spec
+						if n == cancelAt {
+							var cctx context.Context
+							cctx, cancelOne = context.WithCancel(ctx)
+							call, _ = g.genMutate(cctx, false)
+							calls = append(calls, call)
+							continue // no specification kept: it may or may not be sent
+						}
 						if g.r.Intn(3) == 0 {
 							call, s = g.genGet(ctx, false)
 						} else {
@@ -611,13 +628,31 @@ func runC05Case(c *fw.Ctx, id string, cfg c05Config, seed int64, opsPer int) {
 						calls = append(calls, call)
 						sp = append(sp, s)
 					}
+					if cancelOne != nil {
+						time.AfterFunc(time.Duration(200+g.r.Intn(2000))*time.Microsecond, cancelOne)
+						mu.Lock()
+						cancelledInBatch++
+						mu.Unlock()
+					}
 					res, ok := client.SendBatch(ctx, calls)
 					if !ok {
-						for _, x := range res {
-							if x.Error != nil {
+						notSent := false
+						for n, x := range res {
+							if x.Error != nil && n != cancelAt {
 								err = x.Error
 							}
+							if x.Error == gohbase.NotExecutedError {
+								notSent = true
+							}
 						}
+						if cancelAt >= 0 && notSent {
+							// the context ended before the batch was even located: SendBatch
+							// refuses the whole batch (documented), nothing to compare
+							sp, err = nil, nil
+						}
+					}
+					if cancelOne != nil {
+						cancelOne()
 					}
 				}
 				mu.Lock()
@@ -632,6 +667,7 @@ func runC05Case(c *fw.Ctx, id string, cfg c05Config, seed int64, opsPer int) {
 		}(sdr)
 	}
 	stuck := !within(120*time.Second, wg.Wait)
+	c.Count("batches_with_a_call_cancelled_before_flush", int64(cancelledInBatch))
 	malformed := 0
 	for _, e := range cl.Log.Snapshot() {
 		if e.Kind == "malformed" {
@@ -735,7 +771,7 @@ func init() {
 		Floors: func(tier string) map[string]int64 {
 			return map[string]int64{"calls_checked": 5000, "calls_get": 500, "calls_put": 300, "calls_delete": 100, "calls_delete1": 100,
 				"calls_append": 100, "calls_increment": 100, "calls_scan": 100, "frames_decoded": 3000, "cases_concurrent_wrapped": 10,
-				"cases_snappy": 10, "cases_big_payload": 4, "connection_headers_checked": 100}
+				"cases_snappy": 10, "cases_big_payload": 4, "connection_headers_checked": 100, "batches_with_a_call_cancelled_before_flush": 50}
 		},
 		Run: runC05,
 	})
@@ -751,7 +787,7 @@ func runC05(c *fw.Ctx) {
 			Big:     r.Intn(6) == 0,
 			Senders: []int{1, 1, 2, 8, 24}[r.Intn(5)],
 			Queue:   []int{1, 2, 10, 100}[r.Intn(4)],
-			Flush:   []time.Duration{0, time.Millisecond, 5 * time.Millisecond}[r.Intn(3)],
+			Flush:   []time.Duration{0, time.Millisecond, 5 * time.Millisecond, 8 * time.Millisecond}[r.Intn(4)],
 		}
 		id := fmt.Sprintf("c%d-%d", c.Batch, i)
 		c.Begin(id, cfg.String())
